@@ -40,6 +40,7 @@ Ve == 101  VE == 69   Vf == 102  VF == 70  Vg == 103  VG == 71
 (*  k    kind: "nil" "bool" "int" "uint" "float" "string" "bytes"          *)
 (*             "rstring" "rbytes" "safe" "unsafe" "obj"                    *)
 (*             "slice" "map" "struct" "ptrto" "nilptr" "rvalue" "invalidrv" *)
+(*             "tslice" "tmap" "sstr" "complex"                            *)
 (*  id   unique within a case; names the concrete Go value in the harness  *)
 (*  n    integer value (int/uint leaves: also what '*' reads)              *)
 (*  b    bytes (string/rstring content; may hold payload tokens)           *)
@@ -73,6 +74,8 @@ TNilPtr(id)     == [T0 EXCEPT !.k = "nilptr", !.id = id]
 TRValue(id, x)  == [T0 EXCEPT !.k = "rvalue", !.id = id, !.xs = <<x>>]       \* reflect.ValueOf(x) passed as an operand
 TInvalidRV(id)  == [T0 EXCEPT !.k = "invalidrv", !.id = id]                  \* reflect.Value{}
 \* statically typed containers ([]T, map[K]V with concrete T, K, V): elements are not interface-kind values
+TSStr(id, b)    == [T0 EXCEPT !.k = "sstr", !.id = id, !.b = b]              \* interfaces.SafeString: string kind + SafeValue
+TComplex(id)    == [T0 EXCEPT !.k = "complex", !.id = id]
 TTSlice(id, xs) == [T0 EXCEPT !.k = "tslice", !.id = id, !.xs = xs]
 TTMap(id, kvs)  == [T0 EXCEPT !.k = "tmap", !.id = id, !.xs = kvs]
 \* an object: named int type (value n) with the methods in caps
@@ -156,7 +159,7 @@ IsNilIface(t)   == t.k = "nil"
 HasCap(t, c)    == t.k = "obj" /\ c \in t.caps
 IsRegistered(t) == HasCap(t, "REG") /\ ~HasCap(t, "NILP")     \* the registry holds T, a nil *T is another type
 \* implements SafeValue: marked objects and the Safe() wrapper struct itself
-HasSafeValue(t) == HasCap(t, "SV") \/ t.k = "safe"
+HasSafeValue(t) == HasCap(t, "SV") \/ t.k \in {"safe", "sstr"}
 IsError(t)      == HasCap(t, "ER")
 IsSafeFormatter(t) == HasCap(t, "SF") \/ t.k \in {"rstring", "rbytes"}
 IsSafeMessager(t)  == HasCap(t, "SM") \/ t.k = "safe"
@@ -164,7 +167,7 @@ IsFormatter(t)     == HasCap(t, "FM") \/ t.k \in {"safe", "unsafe"}
 IsGoStringer(t)    == HasCap(t, "GS")
 IsStringer(t)      == HasCap(t, "ST")
 IsNilRecv(t)       == HasCap(t, "NILP")        \* a typed nil pointer whose methods dereference it
-IsStringKind(t)    == t.k \in {"string", "rstring"}
+IsStringKind(t)    == t.k \in {"string", "rstring", "sstr"}
 IsPtrKind(t)       == t.k \in {"ptrto", "nilptr", "map", "slice", "tslice", "tmap"} \/ IsNilRecv(t)
 
 ---------------------------------------------------------------------------
@@ -173,7 +176,7 @@ RECURSIVE PrintArg(_, _, _), PrintArg2(_, _, _), PrintValue(_, _, _, _, _), Prin
           RunScript(_, _, _, _), RunOp(_, _, _, _), PPPrint(_, _), PPPrintf(_, _, _),
           DoPrint(_, _), DoPrintArgs(_, _, _, _), DoPrintf(_, _, _), DoItems(_, _, _), DoExtra(_, _, _),
           FmtInteger(_, _, _, _), FmtString(_, _, _, _, _), PrintSeq(_, _, _, _, _, _, _),
-          PrintTSeq(_, _, _, _, _, _, _), PrintTMap(_, _, _, _, _, _),
+          PrintTSeq(_, _, _, _, _, _, _), PrintTMap(_, _, _, _, _, _), FmtComplex(_, _, _),
           PrintMap(_, _, _, _, _, _), PrintFields(_, _, _, _, _, _), FmtPointer(_, _, _), FmtBytes(_, _, _)
 
 \* ---- leaf formatters (print.go:359-570): valid verb -> one unsafe bracket, else badVerb
@@ -189,6 +192,17 @@ FmtInteger(ps, t, signed, verb) ==
 
 FmtFloat(ps, t, verb) ==
   IF verb \in {VV, Vb, Vg, VG, VX, VXX, Vf, Ve, VE, VF} THEN UnsafeRend(ps, "val", t, verb)
+  ELSE BadVerb(ps, verb)
+
+\* fmtComplex: "(" real imag "i)", the parts through fmtFloat (imaginary part with the plus flag forced)
+FmtComplex(ps, t, verb) ==
+  IF verb \in {VV, Vb, Vg, VG, VX, VXX, Vf, VF, Ve, VE}
+  THEN LET a == WByte(ps, 40)
+           m == a.bs.mode  o == a.ov
+           re == Restore(Rend(StartUnsafe(a), "cre", t, verb, 0), m, o)
+           pl == [re EXCEPT !.fl = [@ EXCEPT !.plus = TRUE]]
+           im == Restore(Rend(StartUnsafe(pl), "cim", t, verb, 0), m, o)
+       IN [W(im, IParen) EXCEPT !.fl = [@ EXCEPT !.plus = ps.fl.plus]]
   ELSE BadVerb(ps, verb)
 
 \* fmtString: content b (bytes, maybe payload tokens); rk/t name the leaf for a rendering token
@@ -386,6 +400,7 @@ PrintArg2(ps, a, verb) ==
          [] a.k = "float"   -> FmtFloat(ps, a, verb)
          [] a.k = "string"  -> FmtString(ps, a.b, "val", a, verb)
          [] a.k = "bytes"   -> FmtBytes(ps, a, verb)
+         [] a.k = "complex" -> FmtComplex(ps, a, verb)
          [] a.k \in {"rstring", "rbytes"} ->
               LET m == ps.bs.mode o == ps.ov IN Restore(W(StartPreRedactable(ps), a.b), m, o)
          \* a reflect.Value operand: printArg handles the extractable value itself (printValue would not at depth 0)
@@ -443,7 +458,8 @@ PrintKind(ps0, v, verb, depth, ro) ==
                          ELSE FmtInteger(ps, v, "U8" \notin v.caps, verb)                                   \* named int / named uint8
     [] v.k = "uint"   -> FmtInteger(ps, v, FALSE, verb)
     [] v.k = "float"  -> FmtFloat(ps, v, verb)
-    [] v.k = "string" -> FmtString(ps, v.b, "val", v, verb)
+    [] v.k \in {"string", "sstr"} -> FmtString(ps, v.b, "val", v, verb)
+    [] v.k = "complex" -> FmtComplex(ps, v, verb)
     [] v.k = "bytes"  -> IF verb \in {VS, VQ, VX, VXX} THEN FmtBytes(ps, v, verb)
                          ELSE IF ps.fl.sharpV
                               THEN W(ByteElems(W(Rend(ps, "typename", v, VS, 0), <<123>>), v, verb, 1, TRUE), <<125>>)
@@ -517,6 +533,13 @@ DoPrintArgs(ps, ts, i, prevString) ==
 EnterPrint(ps) == IF NestedOverride = "inherited" /\ ps.ov = "unsafe" THEN ps ELSE SetMode(ps, MS)
 DoPrint(ps, ts) == DoPrintArgs(EnterPrint(ps), ts, 1, FALSE)
 
+\* doPrintln: a space between all operands, a line feed at the end
+RECURSIVE DoPrintlnArgs(_, _, _)
+DoPrintlnArgs(ps, ts, i) ==
+  IF i > Len(ts) \/ Exc(ps) THEN ps
+  ELSE DoPrintlnArgs(PrintArg(IF i > 1 THEN WByte(ps, SP) ELSE ps, ts[i], VV), ts, i + 1)
+DoPrintln(ps, ts) == WByte(DoPrintlnArgs(EnterPrint(ps), ts, 1), NL)
+
 ArgInfo(ts) == [i \in 1..Len(ts) |->
                   IF ts[i].k \in {"int", "uint"} THEN [isInt |-> TRUE, num |-> ts[i].n] ELSE [isInt |-> FALSE, num |-> 0]]
 
@@ -575,6 +598,7 @@ SBRun(ops) == SBRunOps(NewPS, ops)
 \* entry points: the final printer state; Out is what the caller gets (none if the panic propagated)
 Sprintf(f, ts)   == DoPrintf(NewPS, f, ts)
 Sprint(ts)       == DoPrint(NewPS, ts)
+Sprintln(ts)     == DoPrintln(NewPS, ts)
 Sprintfn(scr)    == RunScript(NewPS, scr, VV, T0)
 Errorf(f, ts)    == DoPrintf([NewPS EXCEPT !.wrapErrs = TRUE], f, ts)
 Out(r)           == BOut(r.bs)
